@@ -9,6 +9,7 @@
 // suitable cells differ, the pair  hp.state (Simulation) / hp.after simulation_wrapper_differs
 // (direct run)  is printed, which the driver reports as PROPFAIL C09.
 // Usage: h_sim <mode> <seed> <first> <count>     modes: sim
+#include <algorithm>
 #include <pops/simulation.hpp>
 #include <pops/neighbor_kernel.hpp>
 #include "host_common.hpp"
@@ -33,6 +34,14 @@ struct World {
     World(int rows, int cols, int ne, int nm, int nsoil, uint64_t pseed)
         : h(rows, cols, ne, nm), npop(rows, cols, 0), weather(rows, cols, 1.0), temps(rows, cols, 0.0), disp(rows, cols, 0),
           est(rows, cols, 0), soil((size_t)nsoil, IRaster(rows, cols, 0)), prov(pseed) {}
+};
+
+// Overpopulation kernel with one destination per source cell (a table), every call logged.
+struct TableKernel {
+    const std::vector<std::pair<int, int>>* table; int cols; std::vector<std::pair<int, int>>* log;
+    template <class G> std::tuple<int, int> operator()(G&, int row, int col) {
+        auto t = (*table)[(size_t)(row * cols + col)]; if (log) log->push_back(t); return std::make_tuple(t.first, t.second);
+    }
 };
 
 struct KernelLog { std::vector<std::pair<int, int>> targets; };
@@ -338,19 +347,45 @@ static void sim_case(Case& c) {
             simdiff(method, op, d, err, derr);
             if (rlist(w.disp) != rlist(d.disp) || rlist(w.est) != rlist(d.est) || w.outside != d.outside) stats.add("pest_rasters_differ_from_direct");
             stats.add(std::string("op_") + method); break; }
-        default: {  // move_overpopulated_pests with the library's deterministic neighbour kernel
-            int dir = rng.in(0, 7);
-            int thr64 = rng.in(0, 64), leave64 = rng.in(0, 64);
+        default: {  // move_overpopulated_pests
+            int thr64 = rng.coin(40) ? rng.in(0, 24) : rng.in(0, 64), leave64 = rng.in(0, 64);
             bind_direct(denv, d);
-            DeterministicNeighborDispersalKernel kern(DIRS[dir]), dkern(DIRS[dir]);
             size_t outside_seen = w.outside.size();
-            err = err_kind([&] { sim.move_overpopulated_pests(w.h.s, w.h.i, w.h.th, w.outside, kern, w.h.suitable, thr64 / 64.0, leave64 / 64.0, w.prov); });
-            out << "hp.overpop " << rat64(thr64) << " " << rat64(leave64) << " " << DROW[dir] << " " << DCOL[dir] << " => " << (err.empty() ? "-" : err) << " " << w.h.snapshot() << " |";
-            for (size_t k = outside_seen; k < w.outside.size(); k++) out << " " << std::get<0>(w.outside[k]) << "," << std::get<1>(w.outside[k]);
-            out << "\n";
-            { DIRECT_POOL(dpool, d, denv); Pests dpests(d.disp, d.est, d.outside);
-              MoveOverpopulatedPests<Pool, Pests, IRaster, DRaster, int, DeterministicNeighborDispersalKernel> act(dkern, thr64 / 64.0, leave64 / 64.0, rows, cols);
-              derr = err_kind([&] { act.action(dpool, dpests, d.prov); }); }
+            if (rng.coin(55)) {
+                // injected kernel with one destination PER SOURCE CELL (a table): several qualifying cells can send
+                // their pests to the same destination in one call (a hub inside the raster, rarely outside), which
+                // the library's neighbour kernel (one shift for all sources) never does. Every call is logged; the
+                // protocol line carries the destinations in call order.
+                std::vector<std::pair<int, int>> table((size_t)(rows * cols));
+                std::pair<int, int> hub1{rng.in(0, rows - 1), rng.in(0, cols - 1)}, hub2{rng.coin(25) ? rows + rng.in(0, 1) : rng.in(0, rows - 1), rng.coin(25) ? -1 - rng.in(0, 1) : rng.in(0, cols - 1)};
+                for (auto& t : table) { int k = rng.in(0, 99); t = k < 50 ? hub1 : k < 80 ? hub2 : std::make_pair(rng.in(-1, rows), rng.in(-1, cols)); }
+                std::vector<std::pair<int, int>> calls;
+                TableKernel kern{&table, cols, &calls}, dkern{&table, cols, nullptr};
+                err = err_kind([&] { sim.move_overpopulated_pests(w.h.s, w.h.i, w.h.th, w.outside, kern, w.h.suitable, thr64 / 64.0, leave64 / 64.0, w.prov); });
+                out << "hp.overpop " << rat64(thr64) << " " << rat64(leave64) << " T ";
+                if (calls.empty()) out << "-"; for (size_t k = 0; k < calls.size(); k++) out << (k ? ";" : "") << calls[k].first << "," << calls[k].second;
+                out << " => " << (err.empty() ? "-" : err) << " " << w.h.snapshot() << " |";
+                for (size_t k = outside_seen; k < w.outside.size(); k++) out << " " << std::get<0>(w.outside[k]) << "," << std::get<1>(w.outside[k]);
+                out << "\n";
+                { std::vector<std::pair<int, int>> in; for (auto& t : calls) if (t.first >= 0 && t.first < rows && t.second >= 0 && t.second < cols) in.push_back(t);
+                  std::sort(in.begin(), in.end()); if (std::adjacent_find(in.begin(), in.end()) != in.end()) stats.add("overpop_shared_destination");
+                  if (calls.size() >= 2) stats.add("overpop_two_or_more_sources"); }
+                { DIRECT_POOL(dpool, d, denv); Pests dpests(d.disp, d.est, d.outside);
+                  MoveOverpopulatedPests<Pool, Pests, IRaster, DRaster, int, TableKernel> act(dkern, thr64 / 64.0, leave64 / 64.0, rows, cols);
+                  derr = err_kind([&] { act.action(dpool, dpests, d.prov); }); }
+                stats.add("op_move_overpopulated_pests_table_kernel");
+            } else {
+                // the library's deterministic neighbour kernel
+                int dir = rng.in(0, 7);
+                DeterministicNeighborDispersalKernel kern(DIRS[dir]), dkern(DIRS[dir]);
+                err = err_kind([&] { sim.move_overpopulated_pests(w.h.s, w.h.i, w.h.th, w.outside, kern, w.h.suitable, thr64 / 64.0, leave64 / 64.0, w.prov); });
+                out << "hp.overpop " << rat64(thr64) << " " << rat64(leave64) << " " << DROW[dir] << " " << DCOL[dir] << " => " << (err.empty() ? "-" : err) << " " << w.h.snapshot() << " |";
+                for (size_t k = outside_seen; k < w.outside.size(); k++) out << " " << std::get<0>(w.outside[k]) << "," << std::get<1>(w.outside[k]);
+                out << "\n";
+                { DIRECT_POOL(dpool, d, denv); Pests dpests(d.disp, d.est, d.outside);
+                  MoveOverpopulatedPests<Pool, Pests, IRaster, DRaster, int, DeterministicNeighborDispersalKernel> act(dkern, thr64 / 64.0, leave64 / 64.0, rows, cols);
+                  derr = err_kind([&] { act.action(dpool, dpests, d.prov); }); }
+            }
             simdiff("move_overpopulated_pests", op, d, err, derr);
             if (w.outside != d.outside) stats.add("pest_rasters_differ_from_direct");
             overpop_done = true; stats.add("op_move_overpopulated_pests"); break; }
